@@ -367,7 +367,7 @@ Fixpoint traverse (fuel : nat) (m : pmode) (toks : list tok) (acc : list pev) : 
 
 Definition preorder (toks : list tok) : option (list pev) :=
   match traverse (S (length toks)) PValue toks [] with
-  | Some (acc, []) => Some (rev acc)
+  | Some (acc, []) => Some (rev_append acc [])       (* = rev acc (List.rev_alt), linear *)
   | _ => None
   end.
 
@@ -429,3 +429,103 @@ Fixpoint decode_tree (t : tree) : option tree :=
     end
   | _ => Some t
   end.
+
+(* ---- the traverser with a visitor that may answer VisitOPSkip to OnArrayBegin / OnObjectBegin ----
+   skip k : the visitor skips the k-th container it is told about (containers inside a skipped one are never announced).
+   On VisitOPSkip the traverser rewinds to the opening bracket and calls skipFast (skip_one_fast_1), then emits the End event. *)
+Fixpoint traverse_skip (skip : nat -> bool) (fuel : nat) (m : pmode) (toks : list tok) (acc : list pev) (k : nat)
+  : option (list pev * list tok * nat) :=
+  match fuel with
+  | O => None
+  | S f =>
+    match m with
+    | PValue =>
+      match toks with
+      | KNull :: r => Some (PNull :: acc, r, k)
+      | KTrue :: r => Some (PBool true :: acc, r, k)
+      | KFalse :: r => Some (PBool false :: acc, r, k)
+      | KStr raw :: r => match unescape raw with Some d => Some (PStr d :: acc, r, k) | None => None end
+      | KNum s :: r => Some (PNum s :: acc, r, k)
+      | KLBrack :: r =>
+        if skip k then match skip1 toks with Some r' => Some (PArrEnd :: PArrBegin :: acc, r', S k) | None => None end
+        else match r with
+             | KRBrack :: r' => Some (PArrEnd :: PArrBegin :: acc, r', S k)
+             | _ => traverse_skip skip f PElems r (PArrBegin :: acc) (S k)
+             end
+      | KLBrace :: r =>
+        if skip k then match skip1 toks with Some r' => Some (PObjEnd :: PObjBegin :: acc, r', S k) | None => None end
+        else match r with
+             | KRBrace :: r' => Some (PObjEnd :: PObjBegin :: acc, r', S k)
+             | _ => traverse_skip skip f PMembers r (PObjBegin :: acc) (S k)
+             end
+      | _ => None
+      end
+    | PElems =>
+      match traverse_skip skip f PValue toks acc k with
+      | Some (acc', KComma :: r, k') => traverse_skip skip f PElems r acc' k'
+      | Some (acc', KRBrack :: r, k') => Some (PArrEnd :: acc', r, k')
+      | _ => None
+      end
+    | PMembers =>
+      match toks with
+      | KStr raw :: KColon :: r =>
+        match unescape raw with
+        | None => None
+        | Some key =>
+          match traverse_skip skip f PValue r (PKey key :: acc) k with
+          | Some (acc', KComma :: r', k') => traverse_skip skip f PMembers r' acc' k'
+          | Some (acc', KRBrace :: r', k') => Some (PObjEnd :: acc', r', k')
+          | _ => None
+          end
+        end
+      | _ => None
+      end
+    end
+  end.
+
+Definition preorder_skip (skip : nat -> bool) (toks : list tok) : option (list pev) :=
+  match traverse_skip skip (S (length toks)) PValue toks [] 0 with
+  | Some (acc, [], _) => Some (rev_append acc [])
+  | _ => None
+  end.
+
+(* specification: the flattening in which a skipped container contributes its Begin and End only; the second component is the
+   number of containers announced so far *)
+Fixpoint flatten_skip (skip : nat -> bool) (t : tree) (k : nat) : option (list pev * nat) :=
+  match t with
+  | TNull => Some ([PNull], k) | TTrue => Some ([PBool true], k) | TFalse => Some ([PBool false], k)
+  | TNum s => Some ([PNum s], k)
+  | TStr s => match unescape s with Some d => Some ([PStr d], k) | None => None end
+  | TArr l =>
+    if skip k then Some ([PArrBegin; PArrEnd], S k)
+    else
+      match (fix go (l : list tree) (k : nat) : option (list pev * nat) :=
+               match l with
+               | [] => Some ([], k)
+               | x :: tl => match flatten_skip skip x k with
+                            | Some (a, k1) => match go tl k1 with Some (b, k2) => Some (a ++ b, k2) | None => None end
+                            | None => None
+                            end
+               end) l (S k) with
+      | Some (evs, k') => Some (PArrBegin :: evs ++ [PArrEnd], k')
+      | None => None
+      end
+  | TObj l =>
+    if skip k then Some ([PObjBegin; PObjEnd], S k)
+    else
+      match (fix go (l : list (bytes * tree)) (k : nat) : option (list pev * nat) :=
+               match l with
+               | [] => Some ([], k)
+               | (key, x) :: tl =>
+                 match unescape key, flatten_skip skip x k with
+                 | Some d, Some (a, k1) => match go tl k1 with Some (b, k2) => Some (PKey d :: a ++ b, k2) | None => None end
+                 | _, _ => None
+                 end
+               end) l (S k) with
+      | Some (evs, k') => Some (PObjBegin :: evs ++ [PObjEnd], k')
+      | None => None
+      end
+  end.
+
+(* the k-th..: membership of a list of ordinals (how the harness and the driver give the visitor's decisions) *)
+Definition skip_of (l : list nat) (k : nat) : bool := existsb (Nat.eqb k) l.
